@@ -1,5 +1,5 @@
 """C05 — token objects persist durably, faithfully and in a stable on-disk format (DESIGN.md §3 C05)."""
-import re
+import os, re
 from engine.rulelib import *
 from engine import tables, callgraph
 from rules.c03 import outcomes, ev_calls
@@ -168,7 +168,12 @@ def r1b_limits(ctx, prog):
         f = rf[0]
         ctx.analysed(f)
         caps = []
-        for n in walk(f['body']):
+        # the reader itself and the file-local helpers it calls (fitsInFile ...)
+        bodies = [f['body']]
+        for c in calls(f['body']):
+            if c.get('callee') and '::' not in c['callee']:
+                bodies += [g['body'] for g in prog.fns(c['callee']) if os.path.basename(g['file']) == os.path.basename(f['file'])]
+        for n in (x for b in bodies for x in walk(b)):
             if n.get('k') == 'If' and any(x.get('k') == 'Return' for x in walk(n['t'])):
                 for b in walk(n['c']):
                     if b.get('k') == 'Bin' and b['op'] in ('<', '>', '<=', '>='):
